@@ -3,6 +3,7 @@ package main
 import (
 	"fmt"
 	"sort"
+	"strconv"
 	"strings"
 
 	"github.com/KafScale/platform/pkg/metadata"
@@ -50,6 +51,25 @@ func (w *w1) stepInvariant() error {
 		return nil
 	}
 	if w.prop != "C05" {
+		return nil
+	}
+	if w.etcdMode() && w.etcd != nil {
+		// several brokers over etcd: the published end offset is the next_offset key of the partition
+		alog := w.etcd.AppliedLog()
+		for ; w.etcdIdx < len(alog); w.etcdIdx++ {
+			a := alog[w.etcdIdx]
+			if a.Op != "put" || !strings.HasSuffix(a.Key, "/next_offset") {
+				continue
+			}
+			next, err := strconv.ParseInt(strings.TrimSpace(a.Value), 10, 64)
+			if err != nil {
+				continue
+			}
+			if prev, ok := w.hwLast[a.Key]; ok && next < prev {
+				return &simrt.Violation{Property: "C05", Clause: "hw-regressed", Detail: fmt.Sprintf("etcd key %s went %d -> %d (client %s, task %s)", a.Key, prev, next, a.Client, a.Task)}
+			}
+			w.hwLast[a.Key] = next
+		}
 		return nil
 	}
 	log := w.store.Writes()
